@@ -258,6 +258,7 @@ void Reference::get_polygons(bool apply_repetitions, bool include_paths, int64_t
                 dst->copy_from(*src);
             }
             dst->transform(magnification, x_reflection, rotation, origin + *offset_p++);
+            dst->repetition.transform(magnification, x_reflection, rotation);
             result.append_unsafe(dst);
         }
     }
@@ -295,6 +296,7 @@ void Reference::get_flexpaths(bool apply_repetitions, int64_t depth, bool filter
                 dst->copy_from(*src);
             }
             dst->transform(magnification, x_reflection, rotation, origin + *offset_p++);
+            dst->repetition.transform(magnification, x_reflection, rotation);
             result.append_unsafe(dst);
         }
     }
@@ -332,6 +334,7 @@ void Reference::get_robustpaths(bool apply_repetitions, int64_t depth, bool filt
                 dst->copy_from(*src);
             }
             dst->transform(magnification, x_reflection, rotation, origin + *offset_p++);
+            dst->repetition.transform(magnification, x_reflection, rotation);
             result.append_unsafe(dst);
         }
     }
@@ -369,6 +372,7 @@ void Reference::get_labels(bool apply_repetitions, int64_t depth, bool filter, T
                 dst->copy_from(*src);
             }
             dst->transform(magnification, x_reflection, rotation, origin + *offset_p++);
+            dst->repetition.transform(magnification, x_reflection, rotation);
             result.append_unsafe(dst);
         }
     }
